@@ -404,6 +404,18 @@ func generate(rng *rand.Rand, steps int, profile string) ([]string, []string, ma
 				}
 			}
 			g.do("cmp")
+			if rng.Intn(3) == 0 {
+				// one of the three RW replicas dies; I/O goes on with the other two
+				g.tagN++
+				u := g.nb() * 8
+				off := rng.Intn(u)
+				g.do(fmt.Sprintf("killq %d %d %d", off, 1+rng.Intn(min(20, u-off)), g.tagN))
+				g.feat["replica-killed"] = true
+				for rng.Intn(2) == 0 {
+					g.write(rng)
+				}
+				g.do("cmp")
+			}
 			g.do("meta")
 			// the controller goes away (closing every replica); the rebuilt replica is opened again
 			g.do("rbend")
